@@ -100,8 +100,8 @@ GSW = REG.add(Contract(
 REG.classes.setdefault("LASFile", {"module": "las", "bases": [], "closed": False, "fields": {}})
 REG.classes["LASFile"]["fields"].update({
     "sections": ("rec", {"Version": "$sec_Version", "Well": "$sec_Well", "Curves": "$sec_Curves", "Parameter": "$sec_Parameter",
-                         "*": "$sec_custom"}),
-    "$sec_custom": ("strmap",),
+                         "Other": "$sec_Other", "*": "$sec_custom", "*s": "$sec_text"}),
+    "$sec_custom": ("strmap",), "$sec_Other": STR, "$sec_text": ("strmap_s",),
     "$sec_Version": LI.SI, "$sec_Well": LI.SI, "$sec_Curves": LI.SI, "$sec_Parameter": LI.SI,
 })
 for _nm in ("version", "well", "curves", "params"):
